@@ -61,7 +61,7 @@ theorem setitem_eq {F : List T} (hu : UniqueIds F) {st : St} (hinv : Inv F st) {
       simp only [hasKey, hinv.backend_eq i, hl]; rfl
     simp only [hb, Bool.false_eq_true, if_false]
     have hsubU : ∀ c ∈ subterms t, c ∈ Univ F := fun c hc => mem_univ_of_root ht hc
-    rw [overwrite_spec st i t hid (hinv.compat hu hsubU)]
+    rw [overwrite_spec hu st i t hid (hinv.compat hu hsubU) hsubU]
     exact ⟨trivial, rfl⟩
 
 theorem pendRoot_sub (st : St) (t : T) : ∀ n ∈ pendRoot st t, n ∈ subterms t := by
